@@ -51,6 +51,19 @@ def totals_equal(a, b):
     return True
 
 
+def f3_networks(spec_before, spec_after):
+    """networks of patterns whose job list was empty before an edit and is not after it (known finding F3)"""
+    O = spec_after["objects"]
+    nets = set()
+    for up in [n for n, o in O.items() if o["cls"] == "UsagePattern" and n in spec_before["objects"]]:
+        try:
+            if not gen.jobs_of_up(spec_before, up) and gen.jobs_of_up(spec_after, up):
+                nets.add(O[up]["params"]["network"][1])
+        except KeyError:
+            pass
+    return nets
+
+
 def f3_mechanism(spec_before, spec_after, stale):
     """F3: a pattern whose job list was empty gets jobs: its network is not in the (pre-change) recomputation chain"""
     O = spec_after["objects"]
@@ -148,7 +161,10 @@ def run_case(case):
         if e["op"] == "list":
             classes.add("mut_" + e["method"])
         snap_live = observe.snapshot(sysm)
-        changed = bool(observe.diff(snap_before, snap_live, rtol=0))
+        changed = bool(observe.diff(snap_before, snap_live, rtol=1e-12))
+        touched = [e["obj"]] if e["op"] != "group" else [c["obj"] for c in e["changes"]]
+        from ..spec import reachable
+        in_system = any(t in reachable(spec_before) for t in touched)      # an edit on an object outside the system is not "an edit of the system"
         C["edits_changing_values"] += int(changed)
         if undo:
             C["undo_checks"] += 1
@@ -170,7 +186,7 @@ def run_case(case):
                               "slots": observe.explain_diff(snap_live, snap_ref, d), "history": h.log[-10:],
                               "mechanism": f3_mechanism(spec_before, spec_after, d)})
             last = (e, spec_before, snap_before)
-        if changed and sysm.previous_change is not None:
+        if changed and in_system and sysm.previous_change is not None:
             C["previous_total_checks"] += 1
             if not totals_equal(tot_before, totals_attr(sysm, "previous")):
                 V.append({"kind": "previous_totals", "edit": edits.describe(e),
